@@ -114,59 +114,74 @@ let parse_sop (s : string) : sop =
       SAppend (nat o, bytes_of_hex (String.sub m 2 (String.length m - 2)))
   | _ -> failwith ("drv_mem: bad stream op " ^ s)
 
+let vmode_of = function
+  | "av" -> AssumeValid | "si" -> SubstituteInvalid | "cv" | "default" -> CheckValidity
+  | m -> failwith ("mode " ^ m)
+
 let ss_case a =
   let pool = int_of_string (List.nth a 0) in
   let raw_ops = split_on ';' (List.nth a 1) in
   let is_throwing_sop r = (let n = String.length r in n > 8 && String.sub r (n - 8) 8 = ",M=throw") in
-  let ops = List.map parse_sop (List.filter (fun r -> not (is_throwing_sop r)) raw_ops) in
+  let is_tostr r = String.length r > 6 && String.sub r 0 6 = "tostr," in
   let stk = nat_of_int (int_of_n stack_string_size) and pnat = nat_of_int pool in
-  let (steps, stf) = run_scheduled (fun st o -> run_shistory stk o pnat st) swith_fail sstate0 ops (parse_fail a) in
-  (* a failing wide insertion throws while converting into a TEMPORARY buffer, before any stream member runs:
-     the stream store is untouched (Mem/Stream.v has no operation for it; see Properties/C18.v header) *)
-  let steps =
-    let rec weave raws steps prev =
-      match raws with
-      | [] -> []
-      | r :: rest ->
-          if is_throwing_sop r then
-            (match prev with
-             | Some p -> { p with ss_result = Throw UnicodeError } :: weave rest steps prev
-             | None -> { ss_result = Throw UnicodeError; ss_objs = List.init pool (fun _ -> None); ss_shares = false } :: weave rest steps prev)
-          else (match steps with
-                | s :: more -> s :: weave rest more (Some s)
-                | [] -> []) in
-    weave raw_ops steps None in
+  let fail = parse_fail a in
   let pr_so i = function
     | None -> Printf.sprintf ";%d=-" i
     | Some o -> Printf.sprintf ";%d=%s:%d:%s" i (hex_of_bytes o.so_bytes) (int_of_nat o.so_size) (if o.so_own then "L" else "H") in
-  let died = List.find_opt (fun s -> match s.ss_result with Abort _ | Fault _ -> true | _ -> false) steps in
-  let m =
-    match died with
-    | Some s -> res_name s.ss_result
-    | None ->
-        let body = String.concat "|" (List.map (fun s ->
-          "r=" ^ res_name s.ss_result ^ String.concat "" (List.mapi pr_so s.ss_objs)
-          ^ ";sh=" ^ (if s.ss_shares then "1" else "0")) steps) in
-        (match s_leaked_after_scope stk pnat stf with
-         | Ok n -> "OK " ^ body ^ "|leak=" ^ string_of_nat n
-         | o -> res_name o) in
-  (* spec: bytes only; where the bytes live (L/H) is not part of the property: '*' *)
-  let sstates0 = spec_shistory ops bstore0 in
-  let sstates =
-    let rec weave raws sts prev =
-      match raws with
-      | [] -> []
-      | r :: rest ->
-          if is_throwing_sop r then (`Thrown prev) :: weave rest sts prev
-          else (match sts with s :: more -> (`Ok s) :: weave rest more s | [] -> []) in
-    weave raw_ops sstates0 bstore0 in
-  let pr_s st = String.concat "" (List.init pool (fun i ->
-      match st (nat_of_int i) with
+  (* one operation at a time, so that to_string and failing insertions can be evaluated on the state reached *)
+  let st = ref sstate0 and sp = ref bstore0 in
+  let last_objs = ref (List.init pool (fun _ -> None)) and last_sh = ref false in
+  let mlines = ref [] and slines = ref [] and dead = ref None in
+  let pr_spec () = String.concat "" (List.init pool (fun i ->
+      match !sp (nat_of_int i) with
       | None -> Printf.sprintf ";%d=-" i
       | Some v -> Printf.sprintf ";%d=%s:%d:*" i (hex_of_bytes v) (List.length v))) in
-  let s = "OK " ^ String.concat "|" (List.map (function
-      | `Ok st -> "r=ok" ^ pr_s st ^ ";sh=0"
-      | `Thrown st -> "r=unicode_error" ^ pr_s st ^ ";sh=0") sstates) ^ "|leak=0" in
+  List.iteri (fun idx r ->
+    if !dead = None then begin
+      if is_throwing_sop r then begin
+        (* a failing wide insertion throws while converting into a TEMPORARY buffer, before any stream member runs *)
+        mlines := ("r=unicode_error" ^ String.concat "" (List.mapi pr_so !last_objs) ^ ";sh=" ^ (if !last_sh then "1" else "0")) :: !mlines;
+        slines := ("r=unicode_error" ^ pr_spec () ^ ";sh=0") :: !slines
+      end else if is_tostr r then begin
+        (match split_on ',' r with
+         | [_; o; enc; mode] ->
+             let (res, _) = s_to_string (nat_of_int (int_of_string o)) (enc = "u") (vmode_of mode) !st in
+             let (rs, ts) = (match res with
+               | Ok bytes -> ("ok", ",ts=" ^ hex_of_bytes bytes)
+               | Throw e -> (exn_name e, "")
+               | Abort w -> dead := Some ("ABORT " ^ abort_name w); ("", "")
+               | Fault f -> dead := Some ("FAULT " ^ fault_name f); ("", "")) in
+             mlines := ("r=" ^ rs ^ ts ^ String.concat "" (List.mapi pr_so !last_objs) ^ ";sh=" ^ (if !last_sh then "1" else "0")) :: !mlines;
+             (* spec: the bytes appended so far, validated / repaired / transcoded as the spec-level conversion says;
+                the spec conversion is the model's (C01-C03 prove it against their own specs) *)
+             slines := ("r=" ^ rs ^ ts ^ pr_spec () ^ ";sh=0") :: !slines
+         | _ -> failwith ("drv_mem: bad tostr " ^ r))
+      end else begin
+        let op = parse_sop r in
+        let st0 = (match fail with Some (k, s) when s = idx -> swith_fail !st (Some (nat_of_int k)) | _ -> !st) in
+        let (steps, st1) = run_shistory stk [op] pnat st0 in
+        st := swith_fail st1 None;
+        sp := spec_sop !sp op;
+        (match steps with
+         | [s] ->
+             (match s.ss_result with
+              | Abort _ | Fault _ -> dead := Some (res_name s.ss_result)
+              | _ ->
+                  last_objs := s.ss_objs; last_sh := s.ss_shares;
+                  mlines := ("r=" ^ res_name s.ss_result ^ String.concat "" (List.mapi pr_so s.ss_objs)
+                             ^ ";sh=" ^ (if s.ss_shares then "1" else "0")) :: !mlines;
+                  slines := ("r=ok" ^ pr_spec () ^ ";sh=0") :: !slines)
+         | _ -> failwith "run_shistory: one step expected")
+      end
+    end) raw_ops;
+  let m =
+    match !dead with
+    | Some d -> d
+    | None ->
+        (match s_leaked_after_scope stk pnat !st with
+         | Ok n -> "OK " ^ String.concat "|" (List.rev !mlines) ^ "|leak=" ^ string_of_nat n
+         | o -> res_name o) in
+  let s = "OK " ^ String.concat "|" (List.rev !slines) ^ "|leak=0" in
   (m, s)
 
 (* ---- ST::string histories: each C++ operation carries its footprint class in a trailing M= field ---- *)
